@@ -177,6 +177,11 @@ def build(scn, with_faults=True):
         act = ct.ControlAction(wn.get_node(ch['node']), ch['attr'], float(ch['value']))
         wn.add_control('pddchg%d' % (k_ + 1), ct.Control(ct.SimTimeCondition(wn, '=', float(ch['t'])), act, name='pddchg%d' % (k_ + 1)))
 
+    # a pipe's roughness / minor-loss coefficient changed during the run by a time control on the pipe (ControlAction(pipe, attr, value))
+    for k_, ch in enumerate(scn.get('link_changes', [])):
+        act = ct.ControlAction(wn.get_link(ch['link']), ch['attr'], float(ch['value']))
+        wn.add_control('linkchg%d' % (k_ + 1), ct.Control(ct.SimTimeCondition(wn, '=', float(ch['t'])), act, name='linkchg%d' % (k_ + 1)))
+
     for lk in scn.get('leaks', []):
         node = wn.get_node(lk['node'])
         node.add_leak(wn, area=lk['area'], discharge_coeff=lk.get('cd', 0.75),
